@@ -406,6 +406,12 @@ type machine struct {
 	maxMsgs        int
 	setChanged     bool // a notification changed the entity set after the initial reply
 	cascadeEntries int  // registry / bookkeeping entries removed by entity removals
+	// peers whose initial discovery reply is still missing (slow, lost or asked for again): the stack
+	// knows entity [0] with the node management feature only and not yet the device address.
+	// Notifications of such a peer are applied like any other; entity [0] itself is compared from the
+	// reply on (what a notification may change about it before that is not stated).
+	unannounced map[int]bool
+	earlyMsgs   int // notifications applied before the initial reply of their peer
 }
 
 func (m *machine) logf(format string, a ...any) { m.hist = append(m.hist, fmt.Sprintf(format, a...)) }
@@ -470,9 +476,15 @@ func (m *machine) checkTree(t *rapid.T, pi int, clause, shape, after string) {
 	dev := string(p.Addr)
 	var want, got []string
 	for _, k := range m.trees[pi].keys() {
+		if m.unannounced[pi] && k == key([]uint{0}) {
+			continue
+		}
 		want = append(want, renderModelEntity(dev, m.trees[pi][k]))
 	}
 	for _, e := range p.Dev.Entities() {
+		if m.unannounced[pi] && keyOf(e.Address().Entity) == key([]uint{0}) {
+			continue
+		}
 		got = append(got, renderImplEntity(e))
 	}
 	sort.Strings(want)
@@ -483,6 +495,9 @@ func (m *machine) checkTree(t *rapid.T, pi int, clause, shape, after string) {
 	}
 	// look-ups by address: every address of the domain (and the direct neighbours of the feature ids)
 	for _, addr := range append([][]uint{{0}, {3}, {1, 3}}, addrDomain...) {
+		if m.unannounced[pi] && len(addr) == 1 && addr[0] == 0 {
+			continue
+		}
 		e := p.Dev.Entity(entAddr(addr))
 		me := m.trees[pi][key(addr)]
 		if (e != nil) != (me != nil) || (e != nil && keyOf(e.Address().Entity) != key(addr)) {
@@ -855,6 +870,10 @@ func (m *machine) message(t *rapid.T) {
 	case k >= 6:
 		kind = "full"
 	}
+	late := m.unannounced[pi]
+	if late && rapid.IntRange(0, 2).Draw(t, "initialReplyNow") == 0 {
+		kind = "reply"
+	}
 	withDev := rapid.Bool().Draw(t, "withDeviceInAddresses")
 	before := make([]snap, len(m.w.Peers))
 	for i := range m.w.Peers {
@@ -877,9 +896,19 @@ func (m *machine) message(t *rapid.T) {
 		entries, d = m.drawAnnounced(t, pi, true)
 		// the application asks again; the reply references that read
 		p.Cap.Drain()
-		ctr, err := m.w.Local.RequestRemoteDetailedDiscoveryData(p.Dev)
-		if err != nil || ctr == nil {
-			panic(fmt.Sprintf("harness: cannot request the discovery data again: %v", err))
+		ctr := p.DiscoveryRef
+		if !late || rapid.Bool().Draw(t, "askedAgain") {
+			var err *model.ErrorType
+			ctr, err = m.w.Local.RequestRemoteDetailedDiscoveryData(p.Dev)
+			if err != nil || ctr == nil {
+				panic(fmt.Sprintf("harness: cannot request the discovery data again: %v", err))
+			}
+		}
+		if late {
+			// the initial reply at last: from now on entity [0] is what the reply says
+			m.trees[pi][key([]uint{0})] = clone(deviceInfo())
+			delete(m.unannounced, pi)
+			world.Label("msg/late-initial-reply")
 		}
 		cmd := model.CmdType{NodeManagementDetailedDiscoveryData: discoveryData(p, entries, withDev)}
 		d1 = p.Msg(model.CmdClassifierTypeReply, p.NM(), world.LocalNM(), false, ctr, cmd)
@@ -889,6 +918,10 @@ func (m *machine) message(t *rapid.T) {
 		shape = "reply"
 	}
 	m.msgs++
+	if late && kind != "reply" {
+		m.earlyMsgs++
+		world.Label("msg/before-the-initial-reply")
+	}
 	m.logf("peer%d sends %s (%s, device in addresses: %v): %s  => entity set %s", pi+1, kind, shape, withDev, describe(entries), d)
 	m.dkey = append(m.dkey, fmt.Sprintf("%d:%s:%s", pi, kind, d))
 	world.Label("msg/" + shape)
@@ -1052,6 +1085,13 @@ func (m *machine) reconnect(t *rapid.T) {
 	m.logf("peer%d: connection removed, the device connects again", pi+1)
 	m.dkey = append(m.dkey, fmt.Sprintf("p%d reconnect", pi+1))
 	world.Label("op/reconnect")
+	delete(m.unannounced, pi)
+	if rapid.IntRange(0, 3).Draw(t, "re.replyLate") == 0 {
+		m.unannounced[pi] = true
+		m.trees[pi][key([]uint{0})] = clone(deviceInfo())
+		m.logf("peer%d: the initial reply has not arrived yet", pi+1)
+		return
+	}
 	var ents []entSpec
 	for j, addr := range addrDomain {
 		if rapid.IntRange(0, 2).Draw(t, fmt.Sprintf("re.initial%d", j)) == 2 {
@@ -1074,7 +1114,7 @@ func maxMessages() int {
 
 func TestRemoteTree(t *testing.T) {
 	rapid.Check(t, world.Prop(func(t *rapid.T) {
-		m := &machine{w: world.New(), maxMsgs: maxMessages()}
+		m := &machine{w: world.New(), maxMsgs: maxMessages(), unannounced: map[int]bool{}}
 		defer m.w.Teardown()
 		// two local entities with one server feature per kind (a server feature takes one binding),
 		// one local client feature per kind
@@ -1098,6 +1138,12 @@ func TestRemoteTree(t *testing.T) {
 		m.w.Sync()
 		m.w.Events.Drain()
 		for i := range m.w.Peers {
+			if rapid.IntRange(0, 4).Draw(t, fmt.Sprintf("p%d.replyLate", i+1)) == 0 {
+				m.unannounced[i] = true
+				m.trees[i][key([]uint{0})] = clone(deviceInfo())
+				m.logf("peer%d: the initial reply has not arrived yet", i+1)
+				continue
+			}
 			var ents []entSpec
 			for j, addr := range addrDomain {
 				if rapid.IntRange(0, 2).Draw(t, fmt.Sprintf("p%d.initial%d", i+1, j)) == 2 {
